@@ -192,7 +192,15 @@ def run_program(ck, ego, text, exp, mode, opt, tag):
     p = os.path.join(ck.work, "forms_%s.ego" % tag)
     with open(p, "w") as f:
         f.write(text)
-    rc, out = vf.sh([ego, "run", "--types", mode, "-o", str(opt), p], cwd=ck.work, env=vf.ego_env(ck.work), timeout=120)
+    rc, out = 1, "Error: could not start ego"
+    for attempt in range(3):
+        try:
+            rc, out = vf.sh([ego, "run", "--types", mode, "-o", str(opt), p], cwd=ck.work, env=vf.ego_env(ck.work), timeout=300)
+            break
+        except OSError:                     # binary being replaced by a concurrent build of the same tree
+            import time
+            time.sleep(2)
+            vf.build_ego()
     got = {}
     for line in out.splitlines():
         f = line.split()
@@ -288,7 +296,7 @@ def run(ck):
             for (m, o) in runs:
                 bad, out = run_program(ck, ego, text, exp, m, o, "%s_%s" % (m, o))
                 nst += len(exp)
-                for (i, what, got) in bad[:3]:
+                for (i, what, got) in bad[:(1 if "Error:" in out else 3)]:     # after an abort only the first missing line is the culprit
                     ck.violation("form:%s:%s" % (m, what.split(" on ")[0] + ":" + what.split(" on ")[1].split()[0]),
                                  "`%s` under --types %s -o %d printed %s, documented %s %s\n%s" % (
                                      what, m, o, got, exp[i][0], exp[i][1], out[-300:]),
